@@ -347,7 +347,7 @@ func c14Shapes() []*c14Val {
 		big = append(big, "q"+strconv.Itoa(i), c14S("r"+strconv.Itoa(i)))
 	}
 	return []*c14Val{
-		c14L(c14L(c14S("x"), c14S("y")), c14L(c14S("z"))),
+		c14L(c14L(c14S("x"), c14S("y"), c14S("z")), c14L(c14S("w"))),
 		c14M("k", c14L(c14S("x")), "m", c14M("k", c14S("v"))),
 		c14L(c14M("k", c14L(c14S("x"), c14S("y"))), c14S("y")),
 		c14M("k", c14M("k", c14L(c14S("x"), c14S("y")), "m", c14S("z"))),
